@@ -333,6 +333,18 @@ func c06Fixed() ([]*zr.Program, []map[string]Val, []string) {
 	add("nested-def/after-exception", nil, nil, &zr.FuncDef{Name: "外", Params: []string{"次"}, Body: []zr.Stmt{inner, zr.Throw{Class: "异常", Args: []zr.Expr{zr.S("e")}}},
 		Catches: []zr.Catch{{Class: "异常", Body: []zr.Stmt{zr.Return{E: zr.CallE("内", zr.N("次"))}}}}},
 		zr.Show(zr.S("r1"), zr.CallE("外", lit(1))), zr.Show(zr.S("r2"), zr.CallE("外", lit(2))))
+	// the statements of a body share its block with the 输入 names and the definitions of that
+	// body: 令 of such a name is a second declaration in the same block; in an inner block it shadows
+	pf := &zr.FuncDef{Name: "方法", Params: []string{"参"}, Body: []zr.Stmt{zr.LetS("参", lit(5)), show("not-reached", "参"), zr.Return{E: zr.N("参")}}}
+	add("redeclare/param-by-let", nil, nil, pf, zr.Show(zr.S("r"), zr.CallE("方法", lit(1))), show("not-reached-2"))
+	add("redeclare/param-by-const", nil, nil, &zr.FuncDef{Name: "方法", Params: []string{"参"}, Body: []zr.Stmt{zr.ConstS("参", lit(5)), show("not-reached")}}, zr.ExprStmt{E: zr.CallE("方法", lit(1))}, show("not-reached-2"))
+	add("redeclare/param-by-yield", nil, nil, &zr.FuncDef{Name: "助", Body: []zr.Stmt{zr.Return{E: lit(1)}}}, &zr.FuncDef{Name: "方法", Params: []string{"参"}, Body: []zr.Stmt{func() zr.Stmt { e := zr.CallE("助"); e.Yield = "参"; return zr.ExprStmt{E: e} }(), show("not-reached")}}, zr.ExprStmt{E: zr.CallE("方法", lit(1))}, show("not-reached-2"))
+	add("shadow/param-in-inner-block", nil, nil, &zr.FuncDef{Name: "方法", Params: []string{"参"}, Body: []zr.Stmt{zr.If{Cond: zr.N("真"), Then: []zr.Stmt{zr.LetS("参", lit(5)), show("inner", "参")}}, show("outer", "参"), zr.Return{E: zr.N("参")}}}, zr.Show(zr.S("r"), zr.CallE("方法", lit(1))))
+	add("redeclare/input-by-let", map[string]Val{"入值": Num(4)}, []string{"入值"}, zr.LetS("入值", lit(3)), show("not-reached", "入值"))
+	add("redeclare/method-name-by-let", nil, nil, fn, zr.LetS("方法", lit(1)), show("not-reached"))
+	add("redeclare/let-then-method-name", nil, nil, zr.LetS("方法", lit(1)), fn, show("not-reached"))
+	add("redeclare/type-name-by-let", nil, nil, zr.ClassDef{Name: "型", Props: []zr.PropDef{{Name: "甲", Val: lit(1)}}}, zr.LetS("型", lit(3)), show("not-reached"))
+	add("redeclare/nested-method-name-by-let", nil, nil, &zr.FuncDef{Name: "外", Body: []zr.Stmt{&zr.FuncDef{Name: "内", Body: []zr.Stmt{zr.Return{E: lit(1)}}}, zr.LetS("内", lit(2)), show("not-reached")}}, zr.ExprStmt{E: zr.CallE("外")}, show("not-reached-2"))
 	// predefined names
 	for _, n := range zr.Predefined {
 		add("predefined/assign/"+n, nil, nil, zr.Set(zr.N(n), lit(1)), show("not-reached"))
